@@ -166,6 +166,13 @@ def elevation(rng, g, family=None):
         for i in range(n):
             r, c = i // cols, i % cols
             z.append(min(math.hypot(r - k // cols, c - k % cols) * s for k, s in cs) + rng.choice([0, 0, 1]))
+    elif fam == "gentle":
+        # almost flat ramp: neighbouring nodes differ by far less than typical solver tolerances
+        # (drops of 1e-5 .. 3e-4), optionally below a steep "mountain front"
+        cols = getattr(g, "cols", n)
+        s = rng.choice([1e-5, 1e-4, 3e-4])
+        front = rng.randrange(n) if rng.random() < 0.5 else n
+        z = [s * ((i // cols) + 0.37 * (i % cols)) + (5.0 + 0.1 * i if i >= front else 0.0) for i in range(n)]
     elif fam == "tiny":
         z = [rng.randint(0, 4) * 1e-310 for _ in range(n)]
     elif fam == "huge":
